@@ -1,11 +1,7 @@
 import Secp.Proofs.Decode
+import Secp.Proofs.SpecPt
 /-! # Round trips through the encoders and decoders (C04) -/
 open Spec WeierstrassCurve
-
-/-- a point of the specification: both coordinates reduced, on the curve -/
-def SpecPt : APoint → Prop
-  | none => True
-  | some (x, y) => x < P ∧ y < P ∧ ((y : Nat) : Fp) ^ 2 = ((x : Nat) : Fp) ^ 3 + 7
 
 theorem os2ip_i2osp_lt (v : Nat) (h : v < P) : os2ip (i2osp v 32) = v := by
   rw [os2ip_i2osp]; exact Nat.mod_eq_of_lt (Nat.lt_trans h (by decide))
